@@ -288,6 +288,32 @@ class Evaluator:
         self.glob.vars["__o"] = Cell(self.obs_arr)
         self.last = None
         self.tags = set()
+        self.cyclic = False
+
+    def note_insert(self, container, value):
+        """remember that a container came to contain itself (directly or through other containers)"""
+        if self.cyclic or kind(value) not in ("array", "map"):
+            return
+        seen = set()
+        todo = [value]
+        n = 0
+        while todo and n < 20000:
+            x = todo.pop()
+            n += 1
+            if x is container:
+                self.cyclic = True
+                return
+            if id(x) in seen:
+                continue
+            seen.add(id(x))
+            if kind(x) == "array":
+                todo.extend(y for y in x.items if kind(y) in ("array", "map"))
+            elif kind(x) == "map":
+                for kk, vv in x.pairs:
+                    if kind(kk) in ("array", "map"):
+                        todo.append(kk)
+                    if kind(vv) in ("array", "map"):
+                        todo.append(vv)
 
     def tick(self):
         self.steps += 1
@@ -470,6 +496,7 @@ class Evaluator:
             if kind(b) == "array":
                 if kind(i) != "int" or not (0 <= i < len(b.items)):
                     raise EvalError(tgt)
+                self.note_insert(b, v)
                 b.items[i] = v
                 return v
             if kind(b) == "map":
@@ -513,6 +540,8 @@ class Evaluator:
         cls = {"int": "num", "float": "num"}
         if cls.get(ks, ks) != cls.get(kl, kl):
             self.tags.add("range-pattern-of-another-kind")
+            if getattr(self, "kf_range_raises", False):
+                raise EvalError(node)
             return False          # a range of another kind does not contain the value
         if ks == "float" and sv != sv:
             return False
@@ -537,6 +566,8 @@ class Evaluator:
             raise EvalError(node)
         if kind(k) == "float" and k != k:
             raise Unspecified("NaN key")
+        self.note_insert(m, v)
+        self.note_insert(m, k)
         i = self.map_find(m, k)
         if i is None:
             m.pairs.append((k, v))
@@ -630,6 +661,7 @@ class Evaluator:
         if name == "push":
             if n != 2 or k0 != "array":
                 bad()
+            self.note_insert(a[0], a[1])
             a[0].items.append(a[1])
             return None
         if name == "pop":
@@ -704,6 +736,8 @@ class Evaluator:
                 bad()
             if not self.valid_key(a[1]) or (kind(a[1]) == "float" and a[1] != a[1]):
                 raise Unspecified("insert with an invalid key")
+            self.note_insert(a[0], a[2])
+            self.note_insert(a[0], a[1])
             j = self.map_find(a[0], a[1])
             if j is None:
                 a[0].pairs.append((a[1], a[2]))
@@ -714,29 +748,34 @@ class Evaluator:
         raise Unspecified("builtin %s" % name)
 
 
-def evaluate(program, max_steps=200000):
-    """-> dict(status='ok'|'error'|'unspecified'|'steps', obs=[canon], final=canon|None, node=failing node)"""
+def evaluate(program, max_steps=200000, range_of_another_kind_raises=False):
+    """-> dict(status='ok'|'error'|'unspecified'|'steps', obs=[canon], final=canon|None, node=failing node)
+
+    range_of_another_kind_raises=True evaluates the program as the implementation with the open finding KF-C05-1 does
+    (a range pattern whose bounds are of another kind than the scrutinee stops the program); used only to tell that
+    finding apart from any other disagreement."""
     ev = Evaluator(max_steps)
+    ev.kf_range_raises = range_of_another_kind_raises
     try:
         st, x = ev.run(program)
     except Unspecified as u:
-        return {"status": "unspecified", "reason": str(u)}
+        return {"status": "unspecified", "reason": str(u), "cyclic": ev.cyclic}
     except StepLimit:
-        return {"status": "steps"}
+        return {"status": "steps", "cyclic": ev.cyclic}
     except (BreakSig, ContinueSig, ReturnSig):
-        return {"status": "unspecified", "reason": "stray control transfer"}
+        return {"status": "unspecified", "reason": "stray control transfer", "cyclic": ev.cyclic}
     except RecursionError:
-        return {"status": "unspecified", "reason": "python recursion"}
+        return {"status": "unspecified", "reason": "python recursion", "cyclic": True}
     from .val import TooDeep
     try:
         obs = [canon(v) for v in ev.obs]
         if st == "ok":
             x = canon(x)
     except TooDeep:
-        return {"status": "unspecified", "reason": "self-containing container"}
+        return {"status": "unspecified", "reason": "self-containing container", "cyclic": True}
     if st == "ok":
-        return {"status": "ok", "obs": obs, "final": x, "steps": ev.steps, "tags": ev.tags}
-    return {"status": "error", "obs": obs, "node": x, "steps": ev.steps, "tags": ev.tags}
+        return {"status": "ok", "obs": obs, "final": x, "steps": ev.steps, "tags": ev.tags, "cyclic": ev.cyclic}
+    return {"status": "error", "obs": obs, "node": x, "steps": ev.steps, "tags": ev.tags, "cyclic": ev.cyclic}
 
 
 # ---------------------------------------------------------------------------
